@@ -1,7 +1,7 @@
 // Scheduled correspondence harness for promise.Once and memo.MemoizeFunc (C16).
 //
 // once   events:  [1 c]    Resolve(ctx) in a new actor (c=1: ctx already cancelled)
-//                 [3 i ch] let actor i run from its gate (caller at promise site 1; callback goroutine at site 2 / 3);
+//                 [3 i ch] let actor i run from its gate (caller at promise site 1; callback goroutine at site 2 / 3 / 0);
 //                          ch is written by the harness after the step: 1 = the caller's context was cancelled before the
 //                          step and it returned Canceled (the select choice when both Await cases were ready)
 //                 [4 i]    cancel the context of caller i
@@ -9,6 +9,8 @@
 //        observation: two integers per actor (creation order; a callback goroutine becomes an actor when the callback is entered)
 //                 1 0 caller at gate 1   2 0 caller blocked in Await   3 v returned (v,nil)   4 0 returned Canceled   5 e returned error e
 //                 6 c goroutine inside the callback (c=1 its ctx was cancelled on entry)   7 0 at gate 2   8 0 at gate 3   9 0 finished
+//                 10 0 goroutine parked inside Promise.SetResult between the swap of isDone and the publication (site 0)
+//                 11 0 the call panicked (recovered by the actor wrapper)
 // memo   events:  [1] call the memoized function in a new actor     [2 i k] fn running on actor i returns k: 0 value i+1, 1 error i+1
 //                 [3 n w] n new actors call it at the same moment (they race for real); w (written by the harness) = which one entered fn
 //        observation per actor: 6 0 inside fn   2 0 blocked on done   3 v / 5 e returned
@@ -89,7 +91,9 @@ type sys struct {
 func newSys(w *hist.W) *sys {
 	s := &sys{c: ctl.New(), w: w}
 	s.c.ShouldPark = func(a *ctl.Actor, pkg string, site int, obj any) bool {
-		return site == 1 || site == 2 || site == 3
+		// site 0 (inside Promise.SetResult, after the swap of isDone, before the result is published) only on the
+		// callback goroutine: nobody else resolves a Once's promise
+		return site == 1 || site == 2 || site == 3 || (site == 0 && a.Kind == kCb)
 	}
 	// a goroutine started by the library becomes an actor when it enters the user callback
 	s.c.Adopt = func(pkg string, site int, obj any) *ctl.Actor {
@@ -131,7 +135,7 @@ func (s *sys) status() []uint64 {
 		var c, p uint64
 		switch {
 		case a.Panicked() != nil:
-			c = 99
+			c = 11 // the call (or the callback goroutine's hook) panicked
 		case a.Kind == kCaller:
 			switch {
 			case a.Done():
@@ -153,6 +157,8 @@ func (s *sys) status() []uint64 {
 				c = 7
 			case a.Parked() && a.Site() == 3:
 				c = 8
+			case a.Parked() && a.Site() == 0:
+				c = 10
 			case a.Parked():
 				c = 98
 			default:
@@ -235,11 +241,16 @@ func (s *sys) exec(ev []uint64) (obs []uint64, ok bool) {
 
 // gen picks the next event among those the implementation allows now.
 func (s *sys) gen(r *rand.Rand, maxCallers int) []uint64 {
-	var gates, inUser, live, liveWaiting []int
+	var gates, inUser, live, liveWaiting, callerGates, inWindow []int
 	ncallers := 0
 	for i, a := range s.c.Acts {
 		if a.Parked() {
 			gates = append(gates, i)
+			if a.Kind == kCaller {
+				callerGates = append(callerGates, i)
+			} else if a.Site() == 0 {
+				inWindow = append(inWindow, i)
+			}
 		}
 		if a.Kind == kCb && a.InUser() != 0 {
 			inUser = append(inUser, i)
@@ -252,6 +263,19 @@ func (s *sys) gen(r *rand.Rand, maxCallers int) []uint64 {
 					liveWaiting = append(liveWaiting, i)
 				}
 			}
+		}
+	}
+	// the window inside SetResult (goroutine parked at site 0: isDone set, nothing published): let other callers run
+	// their sections / start / be cancelled there before the result is published
+	if len(inWindow) > 0 && r.IntN(100) < 45 {
+		y := r.IntN(100)
+		switch {
+		case y < 50 && len(callerGates) > 0:
+			return []uint64{3, uint64(callerGates[r.IntN(len(callerGates))]), 0}
+		case y < 75 && ncallers < maxCallers+3:
+			return []uint64{1, 0}
+		case y < 90 && len(liveWaiting) > 0:
+			return []uint64{4, uint64(liveWaiting[r.IntN(len(liveWaiting))])}
 		}
 	}
 	for tries := 0; tries < 200; tries++ {
@@ -314,7 +338,7 @@ func (s *sys) count(ev, obs []uint64, prev []uint64) {
 	if ev[0] == 3 && ev[2] == 1 {
 		s.w.Count("once.step_of_cancelled_caller_at_gate", 1)
 	}
-	nb, ngate, nInCb, nTail := 0, 0, 0, 0
+	nb, ngate, nInCb, nTail, nWin := 0, 0, 0, 0, 0
 	for i := 0; i+1 < len(obs); i += 2 {
 		switch obs[i] {
 		case 2:
@@ -326,6 +350,10 @@ func (s *sys) count(ev, obs []uint64, prev []uint64) {
 			}
 		case 6:
 			nInCb++
+		case 10:
+			ngate++
+			nTail++
+			nWin++
 		case 7, 8:
 			ngate++
 			nTail++
@@ -348,6 +376,15 @@ func (s *sys) count(ev, obs []uint64, prev []uint64) {
 	}
 	if nb >= 2 {
 		s.w.Count("once.obs.two_or_more_blocked", 1)
+	}
+	if nWin > 0 {
+		s.w.Count("once.obs.goroutine_inside_SetResult_window", 1)
+		if ev[0] == 3 && int(ev[1]) < len(s.c.Acts) && s.c.Acts[ev[1]].Kind == kCaller {
+			s.w.Count("once.caller_section_inside_SetResult_window", 1)
+		}
+		if ev[0] == 4 {
+			s.w.Count("once.cancel_inside_SetResult_window", 1)
+		}
 	}
 	if nInCb > 0 && nTail > 0 {
 		s.w.Count("once.obs.new_callback_while_old_goroutine_unfinished", 1)
@@ -459,7 +496,7 @@ func (s *msys) status() []uint64 {
 		var c, p uint64
 		switch {
 		case a.Panicked() != nil:
-			c = 99
+			c = 11
 		case a.Done():
 			r := a.Data.(*mdata).res
 			c, p = r.code, r.val
